@@ -186,6 +186,14 @@ func (m *Machine) Do(s *Step) (fail bool, ret []Text, errc string) {
 			sp.SortAbsolute()
 		case "iterappend":
 			sp.Iterate(func(p *url.NameValuePair) { p.Value += b })
+		case "iterfirst":
+			first := true
+			sp.Iterate(func(p *url.NameValuePair) {
+				if first {
+					p.Value += b
+				}
+				first = false
+			})
 		default:
 			panic("unknown list op " + s.N)
 		}
